@@ -308,6 +308,13 @@ def check_dup(ctx, prog, cls='asl::Array'):
         order = dict((id(x), i) for i, x in enumerate(G.order))
         builds = [e for e in fn_exprs(f) if (e.get('k') == 'construct' and (e.get('cls') or '').startswith(cls.split('<')[0]) and not e.get('copy')) or
                   (e.get('k') == 'call' and e.get('fn') in ('malloc', 'realloc'))]
+        # a member of the class that returns a fresh array by value (`copied()`, `clone()`) builds the new block as well
+        for e in fn_exprs(f):
+            if e.get('k') == 'call' and e.get('clsp') == cls and (e.get('obj') is None or strip_lv(e['obj']).get('k') in ('this', None) or
+                                                                  (strip_lv(e['obj']).get('k') == 'un' and strip_lv(strip_lv(e['obj'])['e']).get('k') == 'this')):
+                rt = T(f, e.get('t'))
+                if rt.get('recp') == cls and not rt.get('ref') and (e.get('pq') or '').split('::')[-1] not in ('dup', 'operator='):
+                    builds.append(e)
         first_build = min([order.get(id(e), 10 ** 9) for e in builds] or [10 ** 9])
         role = 'dup:keeps the storage only for a sole owner'
         bad = None
@@ -340,6 +347,31 @@ def check_dup(ctx, prog, cls='asl::Array'):
                         und = 'guards of the early return not evaluable'
                     elif r and rc_ > 1 and bad is None:
                         bad = (s_.get('l'), rc_, len_)
+        # ... and the other way round: with the storage shared, the block that holds the private copy is built
+        if builds and bad is None:
+            fb = min(builds, key=lambda e: order.get(id(e), 10 ** 9))
+            for rc_ in (2, 3):
+                for len_ in (0, 1, 5):
+                    def bind(e, rc_=rc_, len_=len_):
+                        if e.get('k') == 'call' and (e.get('clsp') or '').endswith('AtomicCount') and e.get('obj') is not None and strip_lv(e['obj']).get('f') == 'rc':
+                            op = e.get('op')
+                            if op in ('==', '!=', '<', '>', '<=', '>=') and e.get('a') and const_val(e['a'][0]) is not None:
+                                c_ = const_val(e['a'][0])
+                                return int({'==': rc_ == c_, '!=': rc_ != c_, '<': rc_ < c_, '>': rc_ > c_, '<=': rc_ <= c_, '>=': rc_ >= c_}[op])
+                            if not e.get('a'):
+                                return rc_
+                        if e.get('k') == 'mem' and e.get('f') == 'n' and 'Data' in (e.get('fq') or ''):
+                            return len_
+                        if e.get('k') == 'call' and (e.get('pq') or '').endswith('::length') and not e.get('a'):
+                            return len_
+                        return None
+                    ev = bounded.Bound(prog, f, {}, {}, bind=bind)
+                    r = bounded.admitted3(ev, G.of(fb), G)
+                    ctx.evaluations += 1
+                    if r is None:
+                        und = und or 'guards of the copy not evaluable'
+                    elif not r and bad is None:
+                        bad = (fb.get('l'), rc_, len_)
         inst = f['q']
         if bad:
             ctx.violation('R-DUP', f['pq'], role, fwhere(f, bad[0]), 'dup() returns without detaching when %d handles share the storage (length %d): clone()/concat of such an array stay aliases of their source, appends through one show in the other and growth leaves it dangling (instantiation %s)' % (bad[1], bad[2], inst))
